@@ -750,6 +750,19 @@ func (x *Exec) overflow(in *ssa.BinOp, r Term, st *State) {
 	if x.pure || !isInteger(in.Type()) {
 		return
 	}
+	if b, ok := in.Type().Underlying().(*types.Basic); ok && narrowCounter(b) {
+		// machine arithmetic on integer types narrower than a word is never treated as
+		// mathematical: a 16- or 32-bit counter that wraps changes a result without any panic.
+		// (byte / rune arithmetic - character code - is left to the opt-in rule below.)
+		if _, c1 := in.X.(*ssa.Const); c1 {
+			if _, c2 := in.Y.(*ssa.Const); c2 {
+				return
+			}
+		}
+		lo, hi := intRange(b)
+		x.obl("safety[narrow-overflow "+in.Op.String()+" "+b.Name()+"]", "safety", "arithmetic on a narrow integer type stays in its range (no silent wrap-around)", st, And(Ge(r, IntLitStr(lo)), Le(r, IntLitStr(hi))))
+		return
+	}
 	if x.fc == nil || x.fc.Opts["overflow"] == "" {
 		// exploration mode (GOVC_OVERFLOW=mul): multiplications everywhere - where realistic
 		// overflows live (limit*2, len*8/10); not part of any registered check
@@ -1321,4 +1334,19 @@ func (x *Exec) initialisedGlobal(key interface{}, st *State) (Term, bool) {
 		}
 	}
 	return Term{}, false
+}
+
+// narrowCounter: integer types narrower than 64 bits other than the character types byte / rune.
+func narrowCounter(b *types.Basic) bool {
+	switch b.Kind() {
+	case types.Int8, types.Int16, types.Uint16:
+		return true
+	case types.Uint8:
+		return b.Name() != "byte"
+	case types.Int32:
+		return b.Name() != "rune"
+	case types.Uint32:
+		return true
+	}
+	return false
 }
